@@ -275,8 +275,17 @@ def transforms(spec, tier):
         # motifs at every node in turn): the single-child node keeps no trace of it
         for e in edges:
             out.append({"family": "split", "edge": e, "frac": FRACTIONS[0], "after": "reconstruct_ancestral_seqs"})
+    if spec["kind"] == "nuc":
+        # one function object given the alignment, then the same columns in another order / repeated: what the first
+        # alignment left behind must not show (with and without rate classes)
+        for bins in (None, {"mode": "gamma", "n": 2, "shape": 1.0, "bprobs": None}):
+            out.append({"family": "reuse", "bins": bins, "second": "reversed columns"})
+            out.append({"family": "reuse", "bins": bins, "second": "each column three times"})
     # the library's own tree operations (the families above build the transformed tree in the driver)
     if not spec.get("edge_params"):
+        for n in internals:
+            out.append({"family": "library", "op": "edgelike_labels", "arg": n})
+            out.append({"family": "library", "op": "edgelike_labels_reversed", "arg": n})
         out.append({"family": "library", "op": "lengths_from_tree", "tiny": False})
         out.append({"family": "library", "op": "lengths_from_tree", "tiny": True})
         if name in F.REVERSIBLE:
@@ -306,8 +315,26 @@ def lnl_of_library_tree(spec, tr):
         return None, None  # a zero length on a tree object is documented to be replaced by a default
     if tr["op"] == "unrooted_children_reversed":
         tree = (tree[0], list(reversed(tree[1]))) if not isinstance(tree, str) else tree
-    ct = make_tree(F.newick(tree, lengths))
     op = tr["op"]
+    if op.startswith("edgelike_labels"):
+        # the newick text labels one internal node with a name that looks generated (edge.0) and leaves the others
+        # unnamed: every edge must still be a parameter of its own, wherever the labelled node comes in the text
+        def text(t, top=True, seen=[0]):  # noqa: B006
+            if isinstance(t, str):
+                return f"{t}:{lengths[t]!r}"
+            kids = list(t[1])
+            if op.endswith("reversed"):
+                kids = kids[::-1]
+            inner = "(" + ",".join(text(k, False) for k in kids) + ")"
+            if top:
+                return inner + ";"
+            seen[0] += 1
+            label = "edge.0" if t[0] == tr["arg"] else ""
+            return f"{inner}{label}:{lengths[t[0]]!r}"
+
+        ct = make_tree(text(tree, True, [0]))
+    else:
+        ct = make_tree(F.newick(tree, lengths))
     if op in ("unrooted", "unrooted_children_reversed"):
         ct = ct.unrooted()
     elif op == "root_at_midpoint":
@@ -369,6 +396,14 @@ def apply_transform(spec, tr, base_cache):
         else:
             new = [cols[i] for i in range(len(cols)) for _ in range(m[i])]
         return lnl_of(spec, cols=new), float(sum(k * l for k, l in zip(m, base_cache["single"])))
+    if fam == "reuse":
+        sp = dict(spec, bins=tr["bins"]) if tr["bins"] else spec
+        cols2 = cols[::-1] if tr["second"] == "reversed columns" else [c for c in cols for _ in range(3)]
+        factor = 1.0 if tr["second"] == "reversed columns" else 3.0
+        lf = D.make_lf(sp, aln=make_aln(spec["kind"], spec["tips"], spec["tips"], cols))
+        first = float(lf.lnL)
+        lf.set_alignment(make_aln(spec["kind"], spec["tips"], spec["tips"], cols2))
+        return float(lf.lnL), factor * first
     if fam == "library":
         got, expected = lnl_of_library_tree(spec, tr)
         if got is None:
@@ -405,7 +440,11 @@ def sig_for(spec, tr):
     if fam == "library":
         if tr["op"] == "lengths_from_tree":
             return f"lnL differs between branch lengths carried by the tree and the same lengths set as parameters [{kind}; {'tiny length' if tr.get('tiny') else 'ordinary lengths'}]"
+        if tr["op"].startswith("edgelike_labels"):
+            return f"lnL differs for a tree whose newick labels one internal node edge.0 and leaves the others unnamed [{kind}]"
         return f"lnL changes under the library's own {tr['op'].replace('_children_reversed', '')}() [{kind}]"
+    if fam == "reuse":
+        return f"lnL after a second set_alignment on the same function ({tr['second']}) is not that of the new alignment [{kind}; {'rate classes' if tr['bins'] else 'no rate classes'}]"
     if fam == "multiset":
         return f"lnL of repeated / merged columns != sum of multiplicity * column lnL [{kind}]"
     return f"lnL changes under permutation of {fam} [{kind}]"
